@@ -282,8 +282,9 @@ Thub(h, n) ==
 
 \* Stream(hub) / iter(hub): pops one prepared copy, IndexError when none is left.
 \* wrap: "use" (plain), or one of the wrappers hub.limit/skip/map (= Stream(hub).<method>)
+HubWraps == {"use", "limit2", "skip1", "map", "filterodd", "append78"}
 HubUse(wrap) ==
-  /\ Can("use") /\ hub # <<>> /\ wrap \in {"use", "limit2", "skip1", "map"}
+  /\ Can("use") /\ hub # <<>> /\ wrap \in HubWraps
   /\ hist' = Append(hist, [op |-> "use", w |-> wrap])
   /\ IF hub[1].its = <<>>
      THEN /\ ret' = RExc("IndexError") /\ dret' = RExc("IndexError")
@@ -294,13 +295,22 @@ HubUse(wrap) ==
                       [] wrap = "limit2" -> [k |-> "lim", left |-> 2, c |-> id]
                       [] wrap = "skip1"  -> [k |-> "skip", n |-> 1, c |-> id]
                       [] wrap = "map"    -> [k |-> "map", c |-> id]
+                      [] wrap = "filterodd" -> [k |-> "fil", p |-> "odd", c |-> id]
+                      [] wrap = "append78"  -> [k |-> "chain", a |-> id, b |-> NewId(M), ina |-> TRUE]
               r0 == hub[1].rem
               r1 == CASE wrap = "use" -> r0 [] wrap = "limit2" -> DLimit(r0, 2)
-                      [] wrap = "skip1" -> DDrop(r0, 1) [] wrap = "map" -> DMap(r0) IN
+                      [] wrap = "skip1" -> DDrop(r0, 1) [] wrap = "map" -> DMap(r0)
+                      [] wrap = "filterodd" -> DFilter(r0, "odd") [] wrap = "append78" -> DAppend(r0, Fin(<<7, 8>>)) IN
           /\ NH < MaxH
+          /\ ~(wrap = "filterodd" /\ FilterHangs(r0, "odd"))
           /\ hub' = <<[hub[1] EXCEPT !.its = SubSeq(@, 1, k - 1)]>>
           /\ IF wrap = "use" THEN M' = M /\ hd' = Append(hd, id)
-             ELSE M' = AddNode(M, nd) /\ hd' = Append(hd, NewId(M))
+             ELSE IF wrap = "append78"
+                  THEN \* Stream(hub).append([7, 8]): the literal's iterator, then the chain node
+                       LET M1 == AddNode(M, SrcNode(Fin(<<7, 8>>))) IN
+                       M' = AddNode(M1, [k |-> "chain", a |-> id, b |-> NewId(M), ina |-> TRUE])
+                       /\ hd' = Append(hd, NewId(M1))
+                  ELSE M' = AddNode(M, nd) /\ hd' = Append(hd, NewId(M))
           /\ rem' = Append(rem, r1)
           /\ ret' = RNew(NH + 1) /\ dret' = RNew(NH + 1)
 
@@ -360,7 +370,7 @@ Next ==
   \/ \E h \in Live, g \in Live : AppendH(h, g)
   \/ \E h \in Live, n \in {2, 3} : TeeOp(h, n)
   \/ \E h \in Live, n \in {1, 2} : Thub(h, n)
-  \/ \E w \in {"use", "limit2", "skip1", "map"} : HubUse(w)
+  \/ \E w \in HubWraps : HubUse(w)
   \/ \E tok \in PeekToks : HubPeek(tok)
   \/ HubCopy \/ HubTake
 
